@@ -67,7 +67,7 @@ def write_if_changed(path, text):
 # Grammar features that a plain draw of 20 traits leaves out of a large share of the batches
 # (measured over 40 seeds: skip_func absent from 30, extern "C" methods from 27, vtbl_only from 21,
 # result aliases from 16): every batch is completed so that each occurs at least once.
-MUST_FEATURES = ["static-ref-return-consuming", "two-borrowed-children", "assoc-without-lifetime-bound-in-result", "skip_func", "extern-c-method", "vtbl_only", "int_result-alias", "self-return", "ret:reschild", "int_result-unit-ok"]
+MUST_FEATURES = ["plain-result-after-method-level-int_result", "static-ref-return-consuming", "two-borrowed-children", "assoc-without-lifetime-bound-in-result", "skip_func", "extern-c-method", "vtbl_only", "int_result-alias", "self-return", "ret:reschild", "int_result-unit-ok"]
 
 
 def batch_traits(rng, seed, n_traits):
